@@ -154,7 +154,7 @@ pub fn def() -> PropertyDef {
         assumptions: vec!["u128 modular arithmetic; refmath root search", "vectors have entries below t (the encoder's precondition)"],
         subs: vec![
             Sub::enumerate("unit_vectors_exhaustive", unit_cases, oracle),
-            Sub::prop("random_vectors", 50_000, 800_000, 0.3, batch_case, oracle),
+            Sub::prop("random_vectors", 300_000, 1_500_000, 0.3, batch_case, oracle),
         ],
     }
 }
